@@ -3,7 +3,8 @@
 From Coq Require Import ZArith Znumtheory.
 From mathcomp Require Import all_ssreflect all_algebra ssrZ.
 From V.Base Require Import PrimeBn256Order.
-From V.C13 Require Import Model ModInv Proofs Bridge Threshold Group Select Compose Node Robust.
+From V.C14 Require Model Curve.
+From V.C13 Require Import Model ModInv Proofs Bridge Threshold Group Select Compose Node Robust CurveInst.
 Import GRing.Theory.
 Local Open Scope ring_scope.
 Delimit Scope Z_scope with ZZ.
@@ -273,6 +274,45 @@ Theorem C13_collector_guard :
   (g_thr g <= List.length (g_map (gen_add o ideq sel g id s).1.1))%coq_nat.
 Proof. move=> T o ideq sel g id s v; exact: gen_add_recovers_only_with_enough. Qed.
 Print Assumptions C13_collector_guard.
+
+(* ---- the group-level statement on the concrete curve (C14's executable model of bn256 G1) ----
+   C13_group_level holds for any vector space over the scalar field.  For the concrete (G1, g1_add,
+   g1_scalar_mult) over Z_r the following are DISCHARGED: r prime (Base), closure / identity / inverse /
+   commutativity of the affine law (C14/Curve.v), the scalar recovery (C13_zr_dkg_unconditional).
+   What REMAINS is exactly the three premises below - associativity of the affine law, "r kills every
+   curve point" (group order), and "the code's Jacobian double-and-add equals repeated addition" - plus,
+   for C13_recovered_verifies, bilinearity of the pairing (not modelled).  Under these premises the
+   literal recoverSignature loop on curve points over the share signatures key(id) * H, for any k or more
+   distinct members in any order, yields (group secret) * H.  The correspondence cases CCTerm/CCCombine/
+   CCSign/CCFull execute the same [recover_sig (zq r) cgo] on real keys against the code. *)
+Theorem C13_curve_group_level :
+  (forall a b c, C14.Curve.g1_pt a -> C14.Curve.g1_pt b -> C14.Curve.g1_pt c ->
+     C14.Model.g1_add (C14.Model.g1_add a b) c = C14.Model.g1_add a (C14.Model.g1_add b c)) ->
+  (forall a, C14.Curve.g1_pt a -> C14.Model.g1_mul_nat (Z.to_nat C14.Model.R) a = C14.Model.G1Inf) ->
+  (forall k a, C14.Curve.g1_pt a -> (0 <= k)%ZZ ->
+     C14.Model.g1_scalar_mult k a = C14.Model.g1_mul_nat (Z.to_nat k) a) ->
+  forall (k : nat) (dealers : seq (seq Z)) (ids : seq Z) (sel : seq nat) (H : C14.Model.g1),
+  all (fun cs => size cs <= k)%N dealers ->
+  uniq (residues curve_order ids) -> uniq sel -> all (fun i => i < size ids)%N sel -> (k <= size sel)%N ->
+  C14.Curve.g1_pt H ->
+  recover_sig (zq curve_order) cgo (pick 0%ZZ sel ids)
+    (map (fun z => C14.Model.g1_scalar_mult (member_key (zq curve_order) dealers z mod curve_order)%ZZ H)
+         (pick 0%ZZ sel ids))
+  = C14.Model.g1_scalar_mult (group_secret (zq curve_order) dealers mod curve_order)%ZZ H.
+Proof.
+move=> assoc ord spec k dealers ids sel H dk u usel insel ksel HH.
+have := @curve_recover_exponent assoc ord spec (pick 0%ZZ sel ids)
+          (map (fun z => member_key (zq curve_order) dealers z mod curve_order)%ZZ (pick 0%ZZ sel ids)) H HH.
+rewrite -!lmapE List.map_map => -> ; last first.
+  apply/List.Forall_forall => y /List.in_map_iff [z [<- _]].
+  by have [] := Z.mod_pos_bound (member_key (zq curve_order) dealers z) curve_order (erefl : (0 < curve_order)%ZZ).
+congr (C14.Model.g1_scalar_mult _ _).
+have := @C13_zr_dkg_unconditional k dealers ids sel 1%ZZ dk u usel insel ksel.
+rewrite Z.mul_1_r => <-; rewrite /recover_z /recover_sel; congr (recover _ _ _ mod _)%ZZ.
+rewrite !pickE lmapE -map_comp; apply/eq_in_map => i /(allP insel) lti /=.
+by rewrite (nth_map 0%ZZ) // Z.mul_1_r.
+Qed.
+Print Assumptions C13_curve_group_level.
 
 (* Non-vacuity: (a) the hypotheses of the Z-mod-q theorems are satisfiable (q = 3, ids 1,2, dealer
    polynomials 2+x and 1+2x); (b) a run over the real curve order: n = 5, k = 3, two dealers, two
